@@ -334,6 +334,13 @@ def content(case):
     labels, spec = S.build(case["skel"], tuple(case["combo"]))
     ps = H.paramsets(spec)
     issues, ncmp, dig = [], 0, []
+    # HistFactory XML stores MC-statistical uncertainties relative to the nominal yield: an uncertainty on an empty nominal bin is not
+    # expressible, so such specs are outside the property's premise ("every workspace expressible in HistFactory XML")
+    for c in spec["channels"]:
+        for s_ in c["samples"]:
+            for m_ in s_["modifiers"]:
+                if m_["type"] == "staterror" and any(x == 0 and u != 0 for x, u in zip(s_["data"], m_["data"])):
+                    return dict(issues=[], nontrivial=False, outcome="not expressible in XML: staterror on an empty nominal bin", comparisons=0)
     root = Path(tempfile.mkdtemp(prefix="vc18c_"))
     try:
         for vi, (vname, ws) in enumerate(variants(spec, case["which"])):
